@@ -270,6 +270,8 @@ def int_lit(n):
 def iter_source(n):
     """for `X.iter()`, `X.iter().rev()`...: the sequence expression being iterated, else None"""
     n = FL.peel(n)
+    while F.is_call(n, "std::iter::Iterator::rev", "std::iter::Iterator::by_ref") and n.get("args"):
+        n = FL.peel(n["args"][0])       # (a position counted from the other end is still smaller than the length)
     if F.is_call(n, "core::slice::<impl [T]>::iter", "core::str::<impl str>::chars", "core::str::<impl str>::bytes",
                  "core::str::<impl str>::char_indices", "core::slice::<impl [T]>::iter_mut"):
         return n["args"][0]
@@ -327,6 +329,10 @@ def bounded_index(n, fam, seen=None):
     if F.is_call(n, "std::convert::From::from", "std::convert::Into::into") and len(n["args"]) == 1 \
             and (F.strip(n["args"][0]).get("ty") == "bool" or n["args"][0].get("ty") == "bool"):
         return "0 or 1 (a bool as an integer)"
+    if n.get("k") == "Binary" and n["op"] == "Sub" and (n.get("ty") in ("usize", None)) and len(seen) < 12:
+        a_ = bounded_index(n["l"], fam, seen)
+        if a_:
+            return "difference below %s" % a_        # (a - b <= a; whether it underflows is the Sub site's own obligation)
     if F.is_call(n, "std::option::Option::<T>::unwrap_or") and len(n["args"]) == 2 and len(seen) < 12:
         recv = FL.peel(n["args"][0])
         if F.is_call(recv, *POSITION_CALLS):
@@ -573,6 +579,35 @@ def discharge(site, fx, policy):
                     return "D-count-bounded: x + (a count over the elements from x on) <= len of the slice"
             return None
         if op == "Sub":
+            # len(x) - p with p <= len(x)
+            lp_ = FL.peel(l)
+            if F.is_call(lp_, *LEN_CALLS) and pos_over_same(lp_["args"][0], r, fam):
+                return "D-len-minus-pos: len(x) - p with p <= len(x)"
+            # e - p where p is a position in (or the length of) the prefix slice `x[..e]`
+            rv_ = value_expr(r, fam)
+            rv_ = FL.peel(rv_) if rv_ is not None else None
+            if rv_ is not None:
+                seqs_ = []
+                for y_ in F.walk(rv_):
+                    if y_.get("k") == "Call" and "fn" in y_ and F.is_call(y_, *POSITION_CALLS) and y_.get("args"):
+                        sq_ = iter_source(y_["args"][0])
+                        if sq_ is None:
+                            it_ = FL.peel(y_["args"][0])
+                            while F.is_call(it_, "std::iter::Iterator::rev", "std::iter::Iterator::by_ref") and it_.get("args"):
+                                it_ = FL.peel(it_["args"][0])
+                            sq_ = iter_source(it_)
+                        if sq_ is not None:
+                            seqs_.append(sq_)
+                if len(seqs_) == 1:
+                    sq_ = FL.peel(seqs_[0])
+                    rng_ = None
+                    if sq_.get("k") == "Index":
+                        rng_ = F.strip(sq_["index"])
+                    elif F.is_call(sq_, "std::ops::Index::index"):
+                        rng_ = F.strip(sq_["args"][1])
+                    if rng_ is not None and rng_.get("k") == "Adt" and rng_["adt"].endswith("RangeTo") \
+                            and same_value(rng_["fields"][0]["e"], l, fam) and pos_over_same(sq_, rv_, fam):
+                        return "D-prefix-pos: e - p with p a position in (or the length of) the prefix slice x[..e]"
             if next_multiple_of_same(l, r, fam):
                 return "D-round-up: len.next_multiple_of(N) - len is in 0..N (a len() is <= isize::MAX, the rounding cannot overflow)"
             # N - (e % N)
@@ -876,6 +911,12 @@ def pos_over_same(x, pos, fam, depth=0, hd=0):
         return "bound is len() of the same sequence"
     if int_lit(pos_n) == 0:
         return "0 (<= any len)"
+    xs_ = FL.peel(x)
+    if xs_.get("k") in ("Index",) or F.is_call(xs_, "std::ops::Index::index"):
+        # x is a prefix slice `y[..e]`: its length is e
+        rng_ = F.strip(xs_["index"]) if xs_.get("k") == "Index" else F.strip(xs_["args"][1])
+        if rng_.get("k") == "Adt" and rng_["adt"].endswith("RangeTo") and same_value(rng_["fields"][0]["e"], pos_n, fam):
+            return "bound is the end of the prefix slice (= its length)"
     if pos_n.get("k") == "Binary" and pos_n["op"] == "Add" and int_lit(pos_n["r"]) == 1 and depth < 3:
         inner = pos_over_same(x, pos_n["l"], fam, depth + 1)
         if inner and "str::find" in inner and "one-byte" not in inner:
@@ -965,7 +1006,8 @@ def pos_over_same(x, pos, fam, depth=0, hd=0):
                 if is_len:
                     return "length of the first piece split off this sequence (a sub-slice), or %s" % dflt
         if dflt and F.is_call(recv, *POSITION_CALLS) and iter_source(recv["args"][0]) is not None \
-                and FL.same_place(iter_source(recv["args"][0]), x) and not (reassigned(x, fam) and F.strip(x).get("k") in ("Var", "Upvar")):
+                and (FL.same_place(iter_source(recv["args"][0]), x) or FL.peel(iter_source(recv["args"][0])) is FL.peel(x)) \
+                and not (reassigned(x, fam) and F.strip(x).get("k") in ("Var", "Upvar")):
             if clo is None:
                 return "position() payload or a bound <= len (unwrap_or)"
             cn = F.strip(clo)
